@@ -249,6 +249,8 @@ impl RV {
             RV::Int(i) => i.to_string(),
             RV::Ip(a) => a.to_string(),
             RV::Bytes(b) => show_bytes(b),
+            RV::Array(t, xs) if xs.is_empty() => format!("[]:{}", t.short()),
+            RV::Map(t, m) if m.is_empty() => format!("{{}}:{}", t.short()),
             RV::Array(_, xs) => format!(
                 "[{}]",
                 xs.iter().map(|x| x.show()).collect::<Vec<_>>().join(",")
